@@ -10,6 +10,10 @@ E1 = "sweep"
 E2 = "jetdrv"
 
 CLAIMED = {
+    "C01": dict(engine=E1, design="4/C01",
+        technique="exhaustive component sweep of the real decoder: every field group of every DF / type code / register through all its values in windows on fixed backgrounds, plus the complete length law",
+        text="Bounded exhaustive enumeration on the real Message::try_from / from_bytes / Display / Debug and on the 14 Comm-B register readers called directly: the length law (every length 0..=32 x 256 first bytes x 4 fills), all 2^16 leading byte pairs x 2 lengths x 3 fills, six AP formats x (2^14 header codes x 4 + 2^13 altitude/identity codes x 4), DF17 and DF18 (all control fields): all 256 first ME bytes x 8-bit (thorough 14/10-bit) windows at stride 4 over the other 48 bits x 2 backgrounds, each register x 12-bit (thorough 16-bit) windows at stride 4 over all 56 bits x 3 backgrounds (zero, status bits set, accepted exemplar), the joint domains of context-coupled fields (roll x track rate, ground speed x TAS, IAS x Mach, wind speed x direction, both BDS 4,0 selectors), whole DF20/21 frames per exemplar, and complete per-field sweeps (all velocity sign/magnitude pairs on a grid with extremes, all vertical rates, 4096 altitude codes x 13 type codes, all movement x track codes, all character codes, all BDS 6,1/6,2/6,5 codes). Oracle per input: no panic (site recorded), accepted => 7/14 bytes by the DF bit, the three renderings do not panic, a second decode is equal, from_bytes agrees and consumes exactly the frame (1.3e7 inputs quick).",
+        note="Trusted: field readers interact only through the contexts swept jointly (stated as an assumption); the claim is every component's full domain on fixed backgrounds, not all 2^112 frames; hangs are bounded only by the wall-clock cap (reported as machinery failure)."),
     "C02": dict(engine=E1, design="4/C02",
         technique="exhaustive enumeration of the CRC state space on the real code against bit-serial polynomial division",
         text="Bounded exhaustive exploration of the real modes_checksum / Message::try_from: all 2^32 four-byte prefixes (every 24-bit CRC state with every next byte), all 2^24 trailers, every 16-bit window at every offset of long frames, every 1-bit, 2-bit and burst<=24 error pattern, base frames x all 2^24 syndromes (thorough), all 2^24 addresses per AP format. Each case is compared with an independent bit-serial division. This is the right level because the CRC is a finite-state loop: covering every (state, byte) pair decides it for all lengths.",
@@ -30,6 +34,14 @@ CLAIMED = {
         technique="complete enumeration of all 2^24 addresses with a hash-set injectivity oracle and an independent block table",
         text="Complete enumeration of all 2^24 addresses through the real tail() (and aircraft_information); registrations are collected in a hash map for injectivity and matched against the address-block table that the harness reads from patterns.json itself. thorough adds all other u32 arguments for totality.",
         note="Trusted: patterns.json as the block table (the property names it); country names are not compared (categories may override them); blocks without a prefix pattern are counted only."),
+    "C07": dict(engine=E1, design="4/C07",
+        technique="exhaustive enumeration of the decoder's accepted message shapes over the shared frame space; strict JSON reader with duplicate-key detection and a finiteness-probing serde serializer",
+        text="Every message accepted in the frame space of C01 (dispatch, headers, extended-squitter windows for every type code / subtype / control field, complete field sweeps, Comm-B frames: 7.0e6 accepted messages quick, all (DF, type code, member-set) shapes counted) is serialised with serde_json::to_string; the text must be one line, must be accepted by a hand-written strict RFC 8259 reader that rejects duplicate keys at every nesting level, a serde Serializer written for the purpose must meet no non-finite float, df must equal the 5 leading bits and icao24 the AA field or the CRC overlay recomputed bit-serially, and the TimedMessage form must keep the frame as lowercase hex, contain every member of the message, and re-decode to the same JSON.",
+        note="Trusted: the strict reader and the finiteness probe (both self-tested at start-up on known-bad documents); metadata of timed records is left empty (it is produced by the receivers, not by the decoder)."),
+    "C08": dict(engine=E1, design="4/C08",
+        technique="exhaustive component sweep (shared frame space incl. joint sign/magnitude sweeps) with physical-range predicates on every reported number",
+        text="The frame space of C01 including the direct register calls and the joint sweeps that matter for ranges (all velocity sign/magnitude pairs incl. both extremes, all 2048 heading codes of subtypes 3/4, all 128x128x2 surface movement/track codes, all BDS 5,0 track / roll x rate / gs x TAS codes, all BDS 6,0 heading / IAS x Mach / rate x rate codes, BDS 4,4 wind speed x direction, temperature x humidity, BDS 4,5, BDS 6,2 headings, every call-sign character at every position, every identity code). Each accepted frame / register is converted to JSON and every number is checked for finiteness (also with the finiteness-probing serializer) and, by member name, against the property's list: angles in [0,360), |roll| <= 90, CPR counts < 2^17, vertical rates multiples of 64 (ADS-B, <= 32640) or 32 (BDS 6,0), speeds >= 0, Mach in (0,1], squawk four octal digits, humidity in [0,100], temperatures in [-80,60], call-sign characters in the 6-bit set. The evidence lists the observed min/max of every numeric member, and the check fails to claim exhaustiveness if a named quantity was never observed.",
+        note="Trusted: quantities are recognised by their JSON member name; members the property does not name are checked for finiteness only."),
     "C09": dict(engine=E1, design="4/C09",
         technique="deviation-bounded exhaustive exploration of read chunkings of the real Beast framer fed from an in-memory chunk queue",
         text="Deviation-bounded exhaustive exploration of the real beast::next_msg, the deviation being a cut of the byte stream between two reads: for every stream F1.F2.tail with F1 over all placements of <= 2 (thorough 3) escaped 0x1A bytes in Mode-AC / short / long frames, runs of 4-6 and all-0x1A bodies, three fillers, and F2 over 12 patterns, the check executes 0 cuts, every single cut, every pair of cuts and the 1-byte dribble; every triple of cuts on the 144-stream sub-alphabet; every single cut of 20k three-frame streams; and all 1024 alignments of 1024-byte reads over a long concatenation (1.5e7 executions quick, 1.8e8 thorough). Chunks are served by the cfg-guarded DataSource::Chunks hook, so boundaries are exact. Oracle: the frames handed on are a prefix of the frames the stream was built from, un-escaped and unmodified, every frame starting before the last 23 bytes is present, and the result equals the one-piece delivery.",
